@@ -6,6 +6,7 @@ import (
 	"github.com/bradenaw/juniper/chans"
 	"github.com/bradenaw/juniper/stream"
 
+	"verifsim/context"
 	"verifsim/sim"
 	"verifsim/time"
 )
@@ -232,7 +233,15 @@ func streamMergeScenario(r *R) {
 		}
 		switch r.Choose(6, "fault") {
 		case 4:
-			s.Err = NewErr(fmt.Sprintf("E%d", i))
+			// mostly a private error value; sometimes one that the library itself also produces
+			switch r.Choose(6, "err-value") {
+			case 4:
+				s.Err = context.Canceled
+			case 5:
+				s.Err = context.DeadlineExceeded
+			default:
+				s.Err = NewErr(fmt.Sprintf("E%d", i))
+			}
 			s.ErrAt = r.Choose(n+1, "err-at")
 			anyErr = true
 		case 5:
